@@ -49,6 +49,14 @@ type acqRow struct {
 	fn, lock string
 	held     []string
 }
+
+// a return statement (or the end of a function) reached while a mutex that was locked in this
+// function is still held and no deferred Unlock covers it
+type leakRow struct {
+	fn   string
+	line int
+	lock string
+}
 type qcallRow struct {
 	from, to string // to = "Type.Method" or "function"
 	held     []string
@@ -121,21 +129,24 @@ func commChan(p *pkgInfo, s ast.Stmt) string {
 
 // walk one function body in source order keeping the set of held locks.
 type walker struct {
-	p        *pkgInfo
-	fn       string
-	recvName string
-	recvType string
-	sels     *[]selRow
-	accs     *[]accRow
-	calls    *[]callEdge
-	gos      *[]callEdge
-	fields   map[string]map[string]bool // struct -> field set
-	ngo      *int
-	bares    *[]bareRow
-	inComm   bool
-	acqs     *[]acqRow
-	qcalls   *[]qcallRow
-	qual     map[string]string // lock expression text -> qualified name
+	p          *pkgInfo
+	fn         string
+	recvName   string
+	recvType   string
+	sels       *[]selRow
+	accs       *[]accRow
+	calls      *[]callEdge
+	gos        *[]callEdge
+	fields     map[string]map[string]bool // struct -> field set
+	ngo        *int
+	bares      *[]bareRow
+	inComm     bool
+	acqs       *[]acqRow
+	qcalls     *[]qcallRow
+	qual       map[string]string // lock expression text -> qualified name
+	deferred   map[string]bool   // lock expression text -> an Unlock of it has been deferred
+	leaks      *[]leakRow
+	inLitDepth int // inside a function literal: its returns do not leave the enclosing function
 }
 
 func typeName(t types.Type) string {
@@ -284,7 +295,9 @@ func (w *walker) exprAccesses(e ast.Expr, locks []string) {
 	ast.Inspect(e, func(n ast.Node) bool {
 		switch x := n.(type) {
 		case *ast.FuncLit:
+			w.inLitDepth++
 			w.block(x.Body.List, cloneLocks(locks), true)
+			w.inLitDepth--
 			return false
 		case *ast.CallExpr:
 			// atomic.LoadUint32(&t.isActive) etc.
@@ -340,6 +353,21 @@ func (w *walker) call(c *ast.CallExpr, locks []string) {
 	}
 }
 
+func (w *walker) leakCheck(locks []string, line int) {
+	if w.leaks == nil || w.inLitDepth > 0 {
+		return
+	}
+	for _, l := range locks {
+		if !w.deferred[l] {
+			q := l
+			if v, ok := w.qual[l]; ok {
+				q = v
+			}
+			*w.leaks = append(*w.leaks, leakRow{w.fn, line, q})
+		}
+	}
+}
+
 func (w *walker) block(list []ast.Stmt, locks []string, inLit bool) []string {
 	for _, s := range list {
 		locks = w.stmt(s, locks, inLit)
@@ -369,11 +397,16 @@ func (w *walker) stmt(s ast.Stmt, locks []string, inLit bool) []string {
 		}
 		w.exprAccesses(x.X, locks)
 	case *ast.DeferStmt:
-		if _, _, rel := w.lockOp(x.Call); rel {
+		if l, _, rel := w.lockOp(x.Call); rel {
+			if w.deferred != nil {
+				w.deferred[l] = true
+			}
 			return locks // released at function end
 		}
 		if fl, ok := x.Call.Fun.(*ast.FuncLit); ok {
+			w.inLitDepth++
 			w.block(fl.Body.List, cloneLocks(locks), true)
+			w.inLitDepth--
 		} else {
 			w.exprAccesses(x.Call, locks)
 		}
@@ -383,7 +416,11 @@ func (w *walker) stmt(s ast.Stmt, locks []string, inLit bool) []string {
 			*w.ngo++
 			sub.fn = fmt.Sprintf("%s$go%d", w.fn, *w.ngo)
 			*w.gos = append(*w.gos, callEdge{from: w.fn, to: sub.fn})
-			sub.block(fl.Body.List, nil, true)
+			// a goroutine body is a function of its own: no locks held at its start, its own deferred set
+			sub.inLitDepth = 0
+			sub.deferred = map[string]bool{}
+			end := sub.block(fl.Body.List, nil, true)
+			sub.leakCheck(end, w.p.fset.Position(fl.Body.Rbrace).Line)
 		} else {
 			name := ""
 			switch f := x.Call.Fun.(type) {
@@ -415,6 +452,7 @@ func (w *walker) stmt(s ast.Stmt, locks []string, inLit bool) []string {
 		for _, r := range x.Results {
 			w.exprAccesses(r, locks)
 		}
+		w.leakCheck(locks, w.p.fset.Position(x.Pos()).Line)
 	case *ast.IfStmt:
 		if x.Init != nil {
 			locks = w.stmt(x.Init, locks, inLit)
@@ -544,6 +582,7 @@ func genTables(repo, out string) error {
 	var bares []bareRow
 	var acqs []acqRow
 	var qcalls []qcallRow
+	var leaks []leakRow
 	var funcs []string
 	for _, f := range p.files {
 		for _, d := range f.Decls {
@@ -554,8 +593,9 @@ func genTables(repo, out string) error {
 			name, recvName, recvType := funcKey(fd)
 			funcs = append(funcs, name)
 			ngo := 0
-			w := &walker{p: p, fn: name, recvName: recvName, recvType: recvType, sels: &sels, accs: &accs, calls: &calls, gos: &gos, fields: fields, ngo: &ngo, bares: &bares, acqs: &acqs, qcalls: &qcalls, qual: map[string]string{}}
-			w.block(fd.Body.List, nil, false)
+			w := &walker{p: p, fn: name, recvName: recvName, recvType: recvType, sels: &sels, accs: &accs, calls: &calls, gos: &gos, fields: fields, ngo: &ngo, bares: &bares, acqs: &acqs, qcalls: &qcalls, qual: map[string]string{}, deferred: map[string]bool{}, leaks: &leaks}
+			end := w.block(fd.Body.List, nil, false)
+			w.leakCheck(end, p.fset.Position(fd.Body.Rbrace).Line)
 		}
 	}
 	strip := func(l string) string {
@@ -686,6 +726,20 @@ func genTables(repo, out string) error {
 	}
 	edge("call_table", calls)
 	edge("go_table", gos)
+	b.WriteString("(* every return (or function end) reached with a mutex locked in that function still held and no deferred Unlock for it *)\n")
+	{
+		seenL := map[string]bool{}
+		var rs []string
+		for _, l := range leaks {
+			r := fmt.Sprintf("(%s, %s)", coqStr(l.fn), coqStr(l.lock))
+			if !seenL[r] {
+				seenL[r] = true
+				rs = append(rs, r)
+			}
+		}
+		sort.Strings(rs)
+		fmt.Fprintf(&b, "Definition lock_leak_table : list (string * string) := [%s].\n\n", strings.Join(rs, "; "))
+	}
 	b.WriteString("(* every mutex acquisition: function, lock (struct.field), locks already held *)\n")
 	{
 		seenA := map[string]bool{}
